@@ -68,3 +68,10 @@ func init() {
 		Rule: "mutator histories: one harness per (message kind in {STARTUP, OPTIONS, READY, QUERY, VOID, ERROR}, version), every sequence of k mutator calls with every argument class is a path; STARTUP accessors: one inductive harness per setter from an arbitrary option map, plus setter sequences",
 	})
 }
+
+func init() {
+	register(&PropCheck{
+		ID: "C06", Pkgs: []string{"segment"}, FnRe: `^VerifC06_`, Level: "model_checking",
+		Rule: "header harnesses over all 2^18 / 2^35 header values; CRC-24 equivalence with a reference over all 2^24 / 2^40 inputs; whole segments for payload lengths 0..8 (thorough 0..24) with symbolic content and every compressed length the LZ4 contract allows; refusal at 131072",
+	})
+}
